@@ -273,6 +273,11 @@ def impl(case):
                 # the same instant on another time scale is the same world point
                 o.append(getattr(t_, case["tscale"]) if case.get("tscale") else t_)
             return o
+        if case["family"] == "spectral" and not case.get("mixed"):
+            # the same spectral point as a SpectralCoord of another physical type (wavelength <-> frequency <-> energy)
+            other = u.THz if UNITS[ax[0]["world"]][0] == 2 else u.um
+            r["inv_spectral_other"] = _try(lambda: _vals(w.invert(coord.SpectralCoord(alt[0]).to(other))))
+            r["w2p_spectral_other"] = _try(lambda: _vals(w.world_to_pixel(coord.SpectralCoord(alt[0]).to(other))))
         r["inv_obj"] = _try(lambda: _vals(w.invert(*objs())))
         r["w2p_obj"] = _try(lambda: _vals(w.world_to_pixel(*objs())))
         r["inv_units"] = _try(lambda: _vals(w.invert(*altq, with_units=True)))
@@ -368,7 +373,7 @@ def oracle(case, res):
                 out.append(("array_index", "%s on the %s WCS gives %s, pixel_to_world of the same whole-number pixels %s" % (op, nm, r["v"], ref["v"])))
     # 3. every way of giving the world point inverts to the same pixels
     otol = max(ptol, 1e-5) if case.get("obj_sky", case.get("sky")) != case.get("sky") else ptol   # FK4 e-terms do not round-trip exactly
-    for op in ("inv_alt", "inv_frame_q", "inv_bare", "inv_obj", "w2p_obj", "inv_units", "inv_equiv", "numinv_alt", "numinv_obj", "numinv_bare", "tr_name", "tr_obj", "tr_alt"):
+    for op in ("inv_alt", "inv_frame_q", "inv_bare", "inv_obj", "w2p_obj", "inv_units", "inv_equiv", "numinv_alt", "numinv_obj", "numinv_bare", "tr_name", "tr_obj", "tr_alt", "inv_spectral_other", "w2p_spectral_other"):
         for nm in ("q", "t"):
             r = res[nm].get(op)
             if r is None:
